@@ -483,6 +483,8 @@ class FetchParsed(Stream):
         wm, ws = words_obs(md.words), words_obs(sd.words)
         try:
             r = master.fetch(source=source)
+            if len(r.objects) == 0:
+                return ["skip", "the result has no object (a deprecated definition left at its default is dropped)"]
             F = ["ok", words_obs(r.objects[0].words)]
         except BaseException as e:  # noqa
             return [wm, ws, err_obs(e), []]
@@ -571,6 +573,36 @@ DVALS = ["a", "A", "b", "*a", "*A", "*b", "+", "a+b", "A+b", "a+", "+b", "", " "
          "none", "None", "auto", "*none", "zz", "*zz", "x y", "a + b"]
 DMASTERS = [["a", "b"], ["*A", "b"], ["a", "*b", "x y"], ["**a", "b"], ["none", "a"], ["*auto"], ["a"],
             ["a", "A"], [], ["None"], ["a+b", "a", "b"], ["", "a"]]
+
+
+class FetchParsedDeprecated(FetchParsed):
+    """the same merges into a choice parameter that is marked .deprecated = True: a deprecated parameter still keeps its
+    alternatives and still refuses an unknown name (only a warning is added)"""
+    name = "fetch_parsed_deprecated"
+
+    def corpus(self):
+        return [[[["fast", "n"], ["slow", "n"]], [["turbo", "n"]], False, "None"],
+                [[["*fast", "n"], ["slow", "n"]], [["fast", "n"], ["*turbo", "n"]], True, "True"]] + FetchParsed.corpus(self)
+
+    def cases(self, rng, tier):
+        for i, c in enumerate(FetchParsed.cases(self, rng, tier)):
+            if i % 9 == 4:
+                yield c
+
+    def texts(self, case):
+        mt, st = FetchParsed.texts(self, case)
+        return mt + ".deprecated = True\n", st
+
+    def impl(self, case):
+        import warnings
+        old = warnings.showwarning
+        warnings.showwarning = lambda *a, **k: None
+        try:
+            with warnings.catch_warnings():
+                warnings.simplefilter("ignore")
+                return FetchParsed.impl(self, case)
+        finally:
+            warnings.showwarning = old
 
 
 class FetchDirect(Stream):
@@ -792,7 +824,7 @@ class TypeStr(Stream):
 
 SPEC = {
     "clusters": ["Tok", "Choice"],
-    "streams": [CharTable, FetchParsed, FetchDirect, AsWords, TypeStr],
+    "streams": [CharTable, FetchParsed, FetchParsedDeprecated, FetchDirect, AsWords, TypeStr],
     "rule": "fetch_parsed: fixed alternative lists (2-5 names over a, B, ab, Ab, c_d, 'x y'; all default-star subsets for "
             "lists up to 3, a sample beyond) x every source spelling generated relative to the list (starred subsets, "
             "starred names alone, bare single names in 4 case variants, quoted names, None/Auto spellings, + forms glued and "
